@@ -4,6 +4,7 @@ import itertools
 import math
 
 from core import fseq, fseqs, fbool, fcells, pseq, pseqs, guarded
+import past
 import used
 
 PROP = "C11"
@@ -15,7 +16,8 @@ RULE = ("one line = one Perm method (op pf), one predefined statistic by table i
         "all bases of <= 2 patterns of length 3 and the class of all permutations; bijections: dictionaries built from "
         "symmetries, identity and random images; non-trivial = the permutation has length >= 3 (methods/statistics) or "
         "the data contain a permutation of length >= 3 (tools); distinct = distinct op lines. "
-        "Ops spec/specl compare the executable Lean specification (Spec/C11.lean) with the Python oracle.")
+        "Ops spec/specl compare the executable Lean specification (Spec/C11.lean) with the Python oracle."
+        ' Hardening pass 2: stream `large` (holeyness / fourpats at 9-12 incl. permutations whose optimum needs more than half of the positions; all other methods and table entries at 31-40, 64-70, ~200, ~401, 1000 minus the ones measured too slow); permutations of heavy lines are objects with a past; dist/distupto/preserved run after a call history on the SAME statistic object (another class, no class, larger, smaller) and are repeated after the returned table has been destroyed.')
 ASSUMPTIONS = [
     "model/implementation agreement outside the enumerated and sampled inputs is assumed",
     "FindStat/arXiv definitions are taken from the docstrings' wording (offline): St000133 bounce is read as the bounce "
@@ -200,9 +202,54 @@ def _use_stats(p, f, dg):
             pass
 
 
+_USE_F = [None]
+
+
+def _c11_use(p):
+    """a few statistics, and the one the line is about, on an object a derived object is about to be made from"""
+    for g in ("count_inversions", "descents", "cycle_decomp", _USE_F[0]):
+        if g is None or (g in _COSTLY and len(p) > 6) or g in OPTIONAL_FUNCS:
+            continue
+        m = getattr(p, g, None)
+        if m is not None:
+            r = used.quiet(m)
+            if hasattr(r, "__next__"):
+                next(r, None)
+
+
+def _mkP(seq, salt):
+    """heavy lines: an object with a past (fresh / used / derived from a used object through another API route)"""
+    # (beyond length 120 the routes themselves cost 0.05-0.3 s a line: plain constructor there, the object is still
+    # used by _use_stats before the call under test)
+    if len(seq) > 120 or (len(seq) > 8 and used.digest("P", [str(seq)]) % 2) or not used.is_perm(seq):
+        return Perm(seq)
+    return past.mkperm_u(seq, salt, _c11_use)
+
+
+_OTHER_CLASSES = ((0, 1), (1, 0), (0, 1, 2), (2, 1, 0))
+
+
+def _stat_history(st, n, basis, dg, every=False):
+    """(C) call history on ONE statistic object before the call under test: tables over another class (one whose
+    rows differ from every other class's from length 2 on), over all permutations, over the line's own class up to
+    a larger and up to a smaller length; results are dropped and destroyed.  Two of the four (all: `every`)."""
+    other = next(b for b in _OTHER_CLASSES[dg % 4:] + _OTHER_CLASSES if basis is None or [b] != [tuple(x) for x in basis])
+    cls = _av(basis)
+    m = min(max(n, 2), 3)
+    calls = [lambda: st.distribution_up_to(m, _av([other])),
+             lambda: st.distribution_up_to(m) if basis is not None else st.distribution_up_to(m, _av([other[::-1]])),
+             lambda: st.distribution_up_to(min(n + 1, 4), cls),
+             lambda: st.distribution_up_to(max(n - 1, 0), cls)]
+    pick = range(4) if every else ((dg >> 3) % 4, (dg >> 5) % 4)
+    for j in pick:
+        used.scrub(used.quiet(calls[j]))
+    used.scrub(used.quiet(lambda: st.distribution_for_length(min(n, 3), _av([other]))))
+
+
 def _heavy(op, a):
     """every line with a long permutation (the random stream) and a deterministic eighth of the short ones"""
-    return len(a) >= 2 and (len(a[1]) >= 19 or used.sel(op, a, 8))
+    # (the handful of lines at length ~1000: plain evaluation, the warm-up alone would cost 0.2 s a line)
+    return len(a) >= 2 and len(a[1]) < 2500 and (len(a[1]) >= 19 or used.sel(op, a, 8))
 
 
 def _impl(op, a):
@@ -219,7 +266,8 @@ def _impl(op, a):
 
         def run():
             if not box:
-                box.append(Perm(pseq(a[1])))
+                _USE_F[0] = f
+                box.append(_mkP(pseq(a[1]), 0))
                 _use_stats(box[0], f, used.digest(op, a))
             p = box[0]
             if len(a) >= 3:
@@ -232,7 +280,8 @@ def _impl(op, a):
 
         def runs():
             if not box:
-                box.append(Perm(pseq(a[1])))
+                _USE_F[0] = None
+                box.append(_mkP(pseq(a[1]), 1))
                 p0 = box[0]
                 used.warm_perm(p0, 0)
                 if used.is_perm(p0):
@@ -253,20 +302,61 @@ def _impl(op, a):
         return _oracle_stat_by_name(_NAMES[int(a[0])], pseq(a[1]))
     if op == "specl":
         return oracle("pf", [a[0], a[1]])
-    if op == "dist":
-        return guarded(lambda: fseq(PS.get_by_index(int(a[0])).distribution_for_length(int(a[1]), _av(pbasis(a[2])))))
-    if op == "distupto":
-        return guarded(lambda: fseqs(PS.get_by_index(int(a[0])).distribution_up_to(int(a[1]), _av(pbasis(a[2])))))
+    if op in ("dist", "distupto"):
+        def dist():
+            st = PS.get_by_index(int(a[0]))
+            n, basis = int(a[1]), pbasis(a[2])
+            hist = op == "distupto" or used.sel(op, a, 8)
+            if hist and 0 <= n <= 7:
+                _stat_history(st, n, basis, used.digest(op, a), every=op == "distupto")
+            call = (lambda: st.distribution_for_length(n, _av(basis))) if op == "dist" else \
+                (lambda: st.distribution_up_to(n, _av(basis)))
+            r = call()
+            out = fseq(r) if op == "dist" else fseqs(r)
+            if hist:
+                # the table that was handed out is destroyed; the same question to the same object once more
+                used.scrub(r)
+                r2 = call()
+                out2 = fseq(r2) if op == "dist" else fseqs(r2)
+                if out2 != out:
+                    return used.unstable(out, out2)
+            return out
+        return guarded(dist)
     if op == "preserved":
-        return guarded(lambda: fbool(PS.get_by_index(int(a[0])).preserved_in(
-            {Perm(k): Perm(v) for k, v in pbij(a[1])})))
+        def pres():
+            st = PS.get_by_index(int(a[0]))
+            pairs = pbij(a[1])
+            if used.sel(op, a, 2):
+                # the same statistic object is first asked about the converse map, about the map with its images
+                # rotated by one and about a part of it; these dictionaries are dropped before the one under test
+                # is built (which may then live at the address of one of them)
+                imgs = [v for _, v in pairs]
+                used.quiet(lambda: st.preserved_in({Perm(v): Perm(k) for k, v in pairs}))
+                used.quiet(lambda: st.preserved_in({Perm(k): Perm(v) for (k, _), v in zip(pairs, imgs[1:] + imgs[:1])}))
+                used.quiet(lambda: st.preserved_in({Perm(k): Perm(v) for k, v in pairs[:len(pairs) // 2]}))
+            d = {Perm(k): Perm(v) for k, v in pairs}
+            out = fbool(st.preserved_in(d))
+            d.clear()
+            return out
+        return used.twice(lambda: guarded(pres)) if used.sel(op, a, 2) else guarded(pres)
     if op == "allpres":
-        return guarded(lambda: fnames(PS.check_all_preservations({Perm(k): Perm(v) for k, v in pbij(a[0])})))
+        def allp():
+            d = {Perm(k): Perm(v) for k, v in pbij(a[0])}
+            r = PS.check_all_preservations(d)
+            out = fnames(r)
+            d.clear()
+            used.scrub(r)
+            return out
+        return used.twice(lambda: guarded(allp)) if used.sel(op, a, 3) else guarded(allp)
     if op in ("transformed", "transformedm"):
         def tr():
-            d = PS.check_all_transformed({Perm(k): Perm(v) for k, v in pbij(a[0])})
-            return "-" if not d else "|".join("%s=>%s" % (k, ";".join(v)) for k, v in d.items())
-        return guarded(tr)
+            arg = {Perm(k): Perm(v) for k, v in pbij(a[0])}
+            d = PS.check_all_transformed(arg)
+            out = "-" if not d else "|".join("%s=>%s" % (k, ";".join(v)) for k, v in d.items())
+            arg.clear()
+            used.scrub(d)
+            return out
+        return used.twice(lambda: guarded(tr)) if used.sel(op, a, 3) else guarded(tr)
     if op == "equidist":
         return guarded(lambda: fnames(PS.equally_distributed(_av(pseqs(a[0])), _av(pseqs(a[1])), int(a[2]))))
     if op == "jointeq":
@@ -286,6 +376,14 @@ def o_prime(n):
 
 def o_compose_power_order(s):
     n = len(s)
+    if n > 12:
+        # long inputs (`large` stream): the order of a permutation of length 400 can exceed 10^12, so the powers
+        # cannot be walked through; the least k with s^k = id is the least common multiple of the orbit sizes
+        # (s^k fixes x iff the size of x's orbit divides k)
+        k = 1
+        for orb in o_orbits(s):
+            k = k * len(orb) // math.gcd(k, len(orb))
+        return k
     cur, k = tuple(s), 1
     ident = tuple(range(n))
     while cur != ident:
@@ -898,6 +996,56 @@ def structured_perm(rng, n):
     return tuple(l)
 
 
+def isolated_block(rng, n):
+    """k pairwise non-adjacent values, none of them the smallest or the largest, gathered in a block of adjacent
+    positions at one end (or in the middle); the other values in any order.  From the definition of holeyness: the
+    positions OUTSIDE the block are one or two runs whose values have k+1 runs, so the maximum is reached by a large
+    set of positions (n-k of them) and - block at an end - by no small one."""
+    k = rng.randrange(2, max(3, (n - 1) // 2 - 1) + 1)
+    while True:
+        hole = sorted(rng.sample(range(1, n - 1), k))
+        if all(b - a >= 2 for a, b in zip(hole, hole[1:])):
+            break
+    rest = [v for v in range(n) if v not in hole]
+    m = rng.randrange(4)
+    if m == 0:
+        rest.sort()
+    elif m == 1:
+        rest.sort(reverse=True)
+    else:
+        rng.shuffle(rest)
+    rng.shuffle(hole)
+    at = rng.choice([0, len(rest), len(rest), rng.randrange(len(rest) + 1)])
+    return tuple(rest[:at] + hole + rest[at:])
+
+
+def large_optimum(rng, n):
+    """a permutation whose holeyness is reached ONLY by a set of more than half of the positions (when it exists for
+    this n; measured with a size-capped variant of the definition: 12 % of the outputs at length 9, 23 % at 11, 7 %
+    at 12, none at 10): t values with gaps of one or two between them (the second smallest and second largest
+    among them) sit at the two ends, the other n-t values in between in increasing (or decreasing) order.  The
+    middle positions are ONE run whose values have t+1 runs; a run of one or two values cannot be split by leaving
+    positions out, so every smaller set loses a value run or gains a position run."""
+    ts = [t for t in range(2, n) if t - 1 <= n - t - 2 <= 2 * (t - 1)]
+    t = rng.choice(ts)
+    runs = [1] * (t - 1)
+    for i in rng.sample(range(t - 1), n - t - 2 - (t - 1)):
+        runs[i] = 2
+    runs = [1] + runs + [1]
+    rest, hole, v = [], [], 0
+    for j, r in enumerate(runs):
+        rest += list(range(v, v + r))
+        v += r
+        if j < len(runs) - 1:
+            hole.append(v)
+            v += 1
+    if rng.random() < 0.3:
+        rest.reverse()
+    rng.shuffle(hole)
+    a = rng.randrange(0, t + 1)
+    return tuple(hole[:a] + rest + hole[a:])
+
+
 def sym_images(s):
     n = len(s)
     inv = [0] * n
@@ -907,14 +1055,27 @@ def sym_images(s):
             "rc": tuple(n - 1 - v for v in reversed(s)), "id": tuple(s)}
 
 
+# operations left out of the `large` stream from a given length on (measured; the limit is ~0.2 s per line on
+# implementation, oracle and model): count_stack_sorts 3 s (implementation) and the layer decomposition 7 s (model)
+# at 400; at 1000 the quadratic listings / the cubic run oracle need 1-3.5 s
+# stack_sort: the library recurses once per element of a monotone run and raises RecursionError from length ~995 on
+# (identity or its reverse, bare interpreter) - a resource limit of the implementation, reported, not exercised
+_DROP_FROM = {"stack_sort": 600, "count_stack_sorts": 150, "rtlmax_ltrmin_decomposition": 150, "count_rtlmax_ltrmin_layers": 150,
+              "rank_encoding": 600, "count_pop_stack_sorts": 600, "min_gapsize": 600, "inversions": 600,
+              "non_inversions": 600, "longestruns_ascending": 600, "longestruns_descending": 600,
+              "length_of_longestrun_ascending": 600, "length_of_longestrun_descending": 600,
+              "length_of_longest_increasing_subsequence": 600, "length_of_longest_decreasing_subsequence": 600}
+_DROP_STAT_FROM = {21: 150, 22: 600, 14: 600, 15: 600}
+
+
 def pf_lines(s, rng=None, big=False):
     fs = fseq(s)
     n = len(s)
     lines = []
     for f in ALL_FUNCS:
-        if f in _ABSENT:
+        if f in _ABSENT or n >= _DROP_FROM.get(f, 10 ** 9):
             continue
-        if f == "holeyness" and n > 10:
+        if f == "holeyness" and n > (12 if big else 10):
             continue
         if f == "fourpats" and n > 12:
             continue
@@ -930,7 +1091,7 @@ def stat_lines(s, n_limit_holey=10):
     fs = fseq(s)
     lines = []
     for i in range(NSTATS):
-        if i == 20 and len(s) > n_limit_holey:
+        if (i == 20 and len(s) > n_limit_holey) or len(s) >= _DROP_STAT_FROM.get(i, 10 ** 9):
             continue
         lines.append("stat %d %s" % (i, fs))
         if i in KNOWN_DEFECT_STATS:
@@ -1031,6 +1192,31 @@ def run(ctx):
         lines.append("stat 20 %s" % fseq(s))
         lines.append("pf fourpats %s" % fseq(s))
     ctx.compare("random-structured", lines)
+    # ---- sizes the other streams never reach
+    # (a) the exponential statistics at the lengths 9..12 (holeyness: all 2^n sets of positions on every side;
+    #     fourpats), on random permutations and on permutations whose optimum needs a LARGE set of positions
+    lines = []
+    for n in (9, 10, 11, 12):
+        for j in range((100 if n == 9 else 60 if n == 11 else 30) if quick else 400):
+            s = (large_optimum(rng, n) if j % 4 == 1 else isolated_block(rng, n)) if j % 2 else \
+                (rand_perm(rng, n) if j % 4 else structured_perm(rng, n))
+            if rng.random() < 0.3:
+                s = sym_images(s)[rng.choice(["rev", "comp", "rc"])]
+            lines.append("pf holeyness %s" % fseq(s))
+            if j % 3 == 0:
+                lines.append("stat 20 %s" % fseq(s))
+            if j % 5 == 0:
+                lines.append("pf fourpats %s" % fseq(s))
+    # (b) every other method / table entry at 31-40, 64-70 and a handful of lines around 200, 401 and 1000
+    for lo, hi, cnt in ((31, 40, 4), (64, 70, 3), (199, 202, 1), (400, 403, 1), (1000, 1000, 1)):
+        for _ in range(cnt if quick else cnt * 6):
+            n = rng.randrange(lo, hi + 1)
+            s = structured_perm(rng, n)
+            lines.extend(pf_lines(s))
+            lines.extend(stat_lines(s))
+            for f in STEP_FUNCS:
+                lines.append("pf %s %s %d" % (f, fseq(s), rng.choice([1, 2, n - 1, n // 2])))
+    ctx.compare("large", lines)
     # ---- distributions
     ND = 5 if quick else 6
     lines = []
